@@ -66,9 +66,26 @@ def expected_items(st, L, keep):
     return exp
 
 
-def observed_items(src, keep, free=True):
+def observed_items(src, keep, free=True, via_file=False):
     import fp
+    if via_file:
+        import os, shutil, tempfile
+        d = tempfile.mkdtemp(prefix="verif_c12_")
+        try:
+            pth = os.path.join(d, "prog.f90")
+            with open(pth, "w", newline="") as fh:
+                fh.write(src)
+            rd = fp.FortranFileReader(pth, ignore_comments=not keep)
+            rd.set_format(fp.FortranFormat(free, False))
+            return _items_of(rd)
+        finally:
+            shutil.rmtree(d, ignore_errors=True)
     rd = fp.reader(src, ignore_comments=not keep, free=free)
+    return _items_of(rd)
+
+
+def _items_of(rd):
+    import fp
     out = []
     for it in rd:
         if isinstance(it, fp.readfortran.Comment):
@@ -101,6 +118,14 @@ def check_layout(arg):
             low = lambda x: (x[0], x[1].lower() if x[0] == "L" else x[1]) + tuple(x[2:])  # noqa
             got, exp = [low(x) for x in got], [low(x) for x in exp]
         form = "free"
+    if v % 2 == 0:
+        # the reader's source kind must not matter: the same text through a file reader
+        a = observed_items(L.text(), keep, free=(form == "free"))
+        b = observed_items(L.text(), keep, free=(form == "free"), via_file=True)
+        if a != b:
+            i = next((j for j in range(min(len(a), len(b))) if a[j] != b[j]), min(len(a), len(b)))
+            return [("file_reader_items_differ:" + form, "item %d: string reader %r file reader %r" % (i, a[i:i + 2], b[i:i + 2]),
+                     dict(source=L.text(), keep_comments=keep, form=form, reader="file"))]
     if got != exp:
         i = next((j for j in range(min(len(got), len(exp))) if got[j] != exp[j]), min(len(got), len(exp)))
         return [("items_differ:" + form, "item %d: expected %r got %r" % (i, exp[i:i + 2], got[i:i + 2]),
